@@ -120,6 +120,7 @@ class RemoteServer():
                         ctx = self.contexts.get(ctx_id, None)
                         if ctx is None:
                             logger.warning('Context {} does not exist!', ctx_id)
+                            cli.close() # the client is waiting for an answer
                             continue
 
                         ctx.call(cli)
